@@ -711,20 +711,23 @@ impl<B: Body<Data = Bytes>> Rechunk<B> {
     pub fn new(inner: B, rng: Rng, stats: Arc<RechunkStats>, max_piece: usize) -> Self {
         Rechunk { inner: Box::pin(inner), rng, carry: Vec::new(), queue: Default::default(), inner_done: false, pend_budget: 0, stats, max_piece, pad_bin: false, trailers_tap: None, data_tap: None, probe_after_end: false, seen_trailers: false }
     }
-    fn enqueue_data(&mut self, mut data: Vec<u8>) {
-        // cut into pieces; maybe keep the last piece as carry (merged with the next frame)
-        while !data.is_empty() {
-            let n = self.rng.urange(1, self.max_piece.max(1)).min(data.len());
-            let rest = data.split_off(n);
-            if rest.is_empty() && self.rng.chance(1, 3) {
-                self.carry = data;
+    fn enqueue_data(&mut self, data: Vec<u8>) {
+        // cut into pieces; maybe keep the last piece as carry (merged with the next frame).
+        // Every piece is its own exact-size allocation (a piece that kept the capacity of what
+        // it was split from made large messages cost quadratic memory).
+        let mut at = 0;
+        while at < data.len() {
+            let n = self.rng.urange(1, self.max_piece.max(1)).min(data.len() - at);
+            let last = at + n == data.len();
+            if last && self.rng.chance(1, 3) {
+                self.carry = data[at..].to_vec();
                 return;
             }
-            if !rest.is_empty() {
+            if !last {
                 self.stats.splits.fetch_add(1, Ordering::Relaxed);
             }
-            self.queue.push_back(Frame::data(Bytes::from(data)));
-            data = rest;
+            self.queue.push_back(Frame::data(Bytes::copy_from_slice(&data[at..at + n])));
+            at += n;
         }
     }
     fn flush_carry(&mut self) {
